@@ -47,5 +47,12 @@ def gen (k : Nat) : G (List String) := do
     let (n, plan) ← genPlan
     let sep ← pick ["0a", "-", "0d0a", "7c7c7c"]
     out := out ++ ["file " ++ toString n ++ " " ++ sep ++ " " ++ ",".intercalate plan, expectLine]
+  -- unscheduled concurrent senders with message sizes up to 33 KB, rotations in between
+  for _ in [0:(k / 4 + 1)] do
+    let w ← pick [4, 8, 16, 32]
+    let per ← pick [20, 40, 80]
+    let sep ← pick ["0a", "0d0a", "7c7c7c"]
+    out := out ++ ["filestress " ++ toString w ++ " " ++ toString per ++ " " ++ toString (← range 0 4) ++ " " ++ sep,
+                   "expect res ok failed=0 missing=0 dup=0 junk=0"]
   pure out
 end Goflow.Gen.C19
